@@ -162,7 +162,7 @@ func lexSpec(src string) ([]tok, error) {
 			toks = append(toks, tok{"str", b.String(), i})
 			i = j + 1
 		default:
-			ops := []string{"<==>", "==>", "::", "==", "!=", "<=", ">=", "&&", "||", "!in", "+", "-", "*", "/", "%", "<", ">", "!", "(", ")", "[", "]", ".", ",", ":", "{", "}"}
+			ops := []string{"<==>", "==>", "::", "==", "!=", "<=", ">=", "&&", "||", "!in", "+", "-", "*", "/", "%", "<", ">", "!", "(", ")", "[", "]", ".", ",", ":", "{", "}", "&"}
 			matched := false
 			for _, op := range ops {
 				if strings.HasPrefix(src[i:], op) {
@@ -325,6 +325,10 @@ func (sp *specParser) unary() SExpr {
 	if sp.isOp("*") {
 		sp.p++
 		return &SUnary{"*", sp.unary()}
+	}
+	if sp.isOp("&") {
+		sp.p++
+		return &SUnary{"&", sp.unary()}
 	}
 	return sp.postfix(sp.primary())
 }
